@@ -4,6 +4,7 @@ import TucanProofs.Lemmas.Tables
 import TucanProofs.Lemmas.Files
 import TucanProofs.Lemmas.FilesExample
 import TucanProofs.Lemmas.PropBlockText
+import TucanProofs.Lemmas.V2Repeated
 /-!
 # C08 — the V2000 reader agrees with V3000 on the same molecule
 
@@ -14,8 +15,8 @@ abstract molecule and with each other.
 
 Scope of the agreement theorem (`C08_readers_agree`, through `V2States`): the mass-difference field of the atom
 block is ` 0`; when `M  CHG` / `M  RAD` / `M  ISO` lines are used, each atom with a value is named exactly once
-(repeated entries and entries with value 0 are covered by `C08_property_block` / `C08_property_block_written`, whose
-closed form takes the last non-zero entry); coordinates agree up to their spelling.  `RendersAll`, the hypothesis
+(`C08_readers_agree_repeated_entries` / `C08_same_string_repeated_entries` lift that: an atom may be named any number
+of times, the last entry naming it counts and a last entry 0 revokes); coordinates agree up to their spelling.  `RendersAll`, the hypothesis
 about the property block, is defined through the reader's line parser; `C08_block_written_in_columns` discharges
 it for every block laid out in the specification's fixed columns.
 -/
@@ -133,6 +134,45 @@ theorem C08_same_string (O : CanonOracle) (m : Mol) (hm : m.Ok) (coords : List (
     (by simp [v2Coords, s2.nAtoms]) text3 text2
     (v3000_text_reads_mol m hm coords text3 lines3 atoms3 bonds3 t3 f3 v3 s3)
     (v2000_text_reads_mol m hm text2 lines2 atoms2 bonds2 bl t2 f2 v2 s2) g3 g2 str3 str2 hg3 hg2 hs3 hs2
+
+/-- **The two readers agree also when the V2000 property lines name an atom more than once.**  `V2StatesRep`
+replaces "every atom with a value is listed exactly once" by what the format leaves open: an atom may be named by
+any number of `M  CHG` / `M  RAD` / `M  ISO` entries, on any lines; the LAST entry naming it carries the molecule's
+value, a last entry of value 0 (or no entry at all) means the atom has none — for a `D` / `T` atom the symbol's
+mass then stays.  `C08_readers_agree` is the special case without repetition (`C08_once_is_a_special_case`). -/
+theorem C08_readers_agree_repeated_entries (m : Mol) (hm : m.Ok) (coords : List (Str × Str × Str))
+    (lines3 : List Str) (atoms3 : List AtomEntry) (bonds3 : List BondEntry)
+    (f3 : IsV3000File lines3 atoms3 bonds3) (s3 : V3States m coords atoms3 bonds3)
+    (lines2 : List Str) (atoms2 : List V2Atom) (bonds2 : List V2Bond) (bl : List BlockLine)
+    (f2 : IsV2000File lines2 atoms2 bonds2 bl) (s2 : V2StatesRep m atoms2 bonds2 bl) :
+    graphAttributesV3000 lines3 = .ok (m.atomDict coords, m.bondDict) ∧
+    graphAttributesV2000 lines2 = .ok (m.atomDict (v2Coords atoms2), m.bondDict) :=
+  ⟨v3000_reads_mol m hm coords lines3 atoms3 bonds3 f3 s3, v2000_reads_mol_rep m hm lines2 atoms2 bonds2 bl f2 s2⟩
+
+/-- … and hence the same TUCAN string (text level, any line-ending style, every oracle meeting the contract) -/
+theorem C08_same_string_repeated_entries (O : CanonOracle) (m : Mol) (hm : m.Ok) (coords : List (Str × Str × Str))
+    (text3 : Str) (lines3 : List Str) (atoms3 : List AtomEntry) (bonds3 : List BondEntry)
+    (t3 : IsTextOf text3 lines3) (f3 : IsV3000File lines3 atoms3 bonds3)
+    (v3 : ∀ l3, lines3[3]? = some l3 → EndsInWord l3 (cs "V3000")) (s3 : V3States m coords atoms3 bonds3)
+    (text2 : Str) (lines2 : List Str) (atoms2 : List V2Atom) (bonds2 : List V2Bond) (bl : List BlockLine)
+    (t2 : IsTextOf text2 lines2) (f2 : IsV2000File lines2 atoms2 bonds2 bl)
+    (v2 : ∀ l3, lines2[3]? = some l3 → EndsInWord l3 (cs "V2000")) (s2 : V2StatesRep m atoms2 bonds2 bl)
+    (g3 g2 : Graph) (str3 str2 : Str)
+    (hg3 : graphFromMolfileText text3 = .ok g3) (hg2 : graphFromMolfileText text2 = .ok g2)
+    (hs3 : tucanOf O.order g3 = .ok str3) (hs2 : tucanOf O.order g2 = .ok str2) : str3 = str2 :=
+  readsAs_same_string O m m hm hm (sameIdentity_refl m) coords (v2Coords atoms2) s3.nAtoms.2
+    (by simp [v2Coords, s2.nAtoms]) text3 text2
+    (v3000_text_reads_mol m hm coords text3 lines3 atoms3 bonds3 t3 f3 v3 s3)
+    (v2000_text_reads_mol_rep m hm text2 lines2 atoms2 bonds2 bl t2 f2 v2 s2) g3 g2 str3 str2 hg3 hg2 hs3 hs2
+
+/-- listing every atom with a value exactly once (`V2States`) is a special case of `V2StatesRep` -/
+theorem C08_once_is_a_special_case (m : Mol) (atoms : List V2Atom) (bonds : List V2Bond) (bl : List BlockLine)
+    (h : V2States m atoms bonds bl) : V2StatesRep m atoms bonds bl :=
+  v2StatesRep_of_v2States m atoms bonds bl h
+
+/-- non-vacuity with a genuine repetition: `[13C]`, its mass first stated as 12 and then as 13, a charge 2 given
+and then revoked by an entry 0; the `M  CHG` lines supersede the decoy charge code 3 of the atom line -/
+example : V2StatesRep repExampleMol repExampleAtoms [] repExampleBlock := repExample
 
 /-- **A value of 0 means "no value"** — what `nonZero` in `C08_property_block` is: an entry `0` in an `M  CHG` /
 `M  RAD` / `M  ISO` line states nothing, every other value is kept -/
